@@ -47,9 +47,9 @@ def run(chk):
         else:
             chk.require((not r.ok) and "Deterministic" in r.raw, "negative control: hash-order iteration was not found nondeterministic by TLC")
     # ---- inputs
-    def gen(moddir, mod, inv, key="lib", extra_lib=None):
+    def gen(moddir, mod, inv, key="lib", extra_lib=None, consts=""):
         cfg = os.path.join(W, mod + ".cfg")
-        open(cfg, "w").write(f"SPECIFICATION Spec\nINVARIANTS {inv}\nCHECK_DEADLOCK FALSE\n")
+        open(cfg, "w").write(f"SPECIFICATION Spec\n{consts}INVARIANTS {inv}\nCHECK_DEADLOCK FALSE\n")
         r = tlc.check(os.path.join(SPECS, moddir, mod + ".tla"), cfg, timeout=3600)
         chk.add_tlc(mod + " (inputs)", r)
         chk.tlc_must_pass(mod, r)
@@ -69,12 +69,12 @@ def run(chk):
     mixed = abs_lib(4, layers=[2, 103, 101, 1]); mixed["name"] = "mixednum"
     for nm, lib in (("samenum", same), ("mixednum", mixed)):
         inputs += [("raw2gds", nm, lib), ("raw2proto", nm, lib), ("raw2lef", nm, lib)]
-    gs = [c for c in gen("raw", "MC_GdsSemantics", "Emit") if not c["must_err"]]
+    gs = [c for c in gen("raw", "MC_GdsSemantics", "Emit", consts="CONSTANT NDeep = 10\n") if not c["must_err"]]
     fan = [c for c in gs if any(st["name"] == "fan_top" for st in c["lib"])]
     chk.require(len(fan) >= 3, "fan-out GDS inputs missing")
     for i, c in enumerate(fan + rng.sample(gs, min(len(gs), 60 if thorough else 25))):
         inputs.append(("gds2raw", f"gdssem{i}", c["lib"]))
-    rg = gen("raw", "MC_RawGds", "Emit")
+    rg = gen("raw", "MC_RawGds", "Emit", consts="CONSTANT NDeep = 10\n")
     fanr = [c for c in rg if any(cl["name"] == "fan_top" for cl in c["lib"]["cells"])]
     chk.require(len(fanr) >= 2, "fan-out raw inputs missing")
     for i, c in enumerate(fanr + rng.sample(rg, min(len(rg), 80 if thorough else 25))):
